@@ -37,6 +37,15 @@ def run_corr(ck, scenarios, max_broken=8):
             ck.notes.setdefault('correspondence_mismatches', 0)
             ck.notes['correspondence_mismatches'] += 1
     ck.notes['e1_records'] = ck.notes.get('e1_records', 0) + len(recs)
+    hung = getattr(ck, 'hung', None)
+    if hung is None:
+        hung = ck.hung = set()
+    while e1.TIMEOUTS:
+        sc, c, op = e1.TIMEOUTS.pop()
+        hung.add((id(sc), c.pattern))
+        ck.violation(f'{op[0]}({c.pattern!r}) did not return within {e1.OP_TIMEOUT} s (the extracted model answers at once)',
+                     {'pattern': c.pattern, 'namespaces': None if c.namespaces is None else dict(c.namespaces), 'op': list(op),
+                      'markup': markup_of(sc), 'tree': sc.label})
     return recs
 
 
